@@ -86,6 +86,7 @@ DISP_IMPORTS = ['Coq.Lists.List', 'Coq.Bool.Bool', 'SV.Rot.RotDispatch', 'SV.Gen
 REIFY_IMPORTS = ['Coq.Lists.List', 'Coq.Bool.Bool', 'SV.Rot.RotReify', 'SV.Gen.RotReified_gen']
 GJ_IMPORTS = ['Coq.Lists.List', 'Coq.Bool.Bool', 'SV.Rot.RotGJ', 'SV.Gen.RotInverse_gen']
 GJT_IMPORTS = ['Coq.Lists.List', 'Coq.Bool.Bool', 'Coq.QArith.QArith', 'SV.Rot.RotGJ', 'SV.Rot.RotGJTotal', 'SV.Gen.RotInverse_gen']
+COPIES_IMPORTS = ['Coq.Lists.List', 'Coq.Bool.Bool', 'SV.Rot.RotCopies', 'SV.Gen.RotCopies_gen']
 METHOD_IMPORTS = ['Coq.Lists.List', 'Coq.Bool.Bool', 'SV.Rot.RotMethods', 'SV.Gen.RotMethods_gen']
 INPLACE_IMPORTS = ['Coq.Lists.List', 'Coq.Bool.Bool', 'SV.Rot.RotInplace', 'SV.Gen.RotInplace_gen']
 ROUND_IMPORTS = ['Coq.Lists.List', 'Coq.Bool.Bool', 'Coq.QArith.QArith', 'SV.Rot.RotRound', 'SV.Gen.RotRounded_gen']
@@ -1145,7 +1146,10 @@ def conversion_problems(vals: dict) -> list[tuple[str, str]]:
     _CURRENT[0] = {'kind': 'conversion', 'vals': vals}
     out: list[tuple[str, str]] = []
 
-    def same(name: str, got: Any, want: tuple, cls: type | None = None) -> None:
+    def same(name: str, got: Any, want: tuple, cls: type | None = None, not_obj: Any = None) -> None:
+        if not_obj is not None and got is not_obj:
+            out.append((name, f'{name}: returned the mutable receiver itself, not a copy'))
+            return
         try:
             g = snapshot(got)
         except Exception as e:      # noqa: BLE001
@@ -1161,11 +1165,12 @@ def conversion_problems(vals: dict) -> list[tuple[str, str]]:
         nm = mc.__name__
         M = mc.from_angle(p, y, r)
         w = snapshot(M)
-        same(f'{nm}.copy', M.copy(), w, mc)
-        same(f'{nm}(matrix)', mc(M), w, mc)
+        mut = M if mc is Matrix else None
+        same(f'{nm}.copy', M.copy(), w, mc, mut)
+        same(f'{nm}(matrix)', mc(M), w, mc, mut)
         same(f'{oc.__name__}({nm})', oc(M), w, oc)
-        same(f'copy.copy({nm})', copy.copy(M), w, mc)
-        same(f'copy.deepcopy({nm})', copy.deepcopy(M), w, mc)
+        same(f'copy.copy({nm})', copy.copy(M), w, mc, mut)
+        same(f'copy.deepcopy({nm})', copy.deepcopy(M), w, mc, mut)
         same(f'pickle({nm})', pickle.loads(pickle.dumps(M)), w, mc)
         same(f'{nm}.freeze/thaw', M.thaw() if mc is FrozenMatrix else M.freeze(), w, oc)
         same(f'{nm}.forward/left/up', tuple(M.forward()) + tuple(M.left()) + tuple(M.up()), w)
@@ -1182,7 +1187,7 @@ def conversion_problems(vals: dict) -> list[tuple[str, str]]:
         nm = ac.__name__
         a = ac(*vals['A'])
         w = snapshot(a)
-        same(f'{nm}.copy', a.copy(), w, ac)
+        same(f'{nm}.copy', a.copy(), w, ac, a if ac is Angle else None)
         same(f'{oc.__name__}({nm})', oc(a), w, oc)
         same(f'copy.copy({nm})', copy.copy(a), w, ac)
         same(f'pickle({nm})', pickle.loads(pickle.dumps(a)), w, ac)
@@ -1192,7 +1197,7 @@ def conversion_problems(vals: dict) -> list[tuple[str, str]]:
         nm = vc.__name__
         v = vc(*vals['V'])
         w = snapshot(v)
-        same(f'{nm}.copy', v.copy(), w, vc)
+        same(f'{nm}.copy', v.copy(), w, vc, v if vc is Vec else None)
         same(f'{oc.__name__}({nm})', oc(v), w, oc)
         same(f'copy.copy({nm})', copy.copy(v), w, vc)
         same(f'pickle({nm})', pickle.loads(pickle.dumps(v)), w, vc)
@@ -1518,11 +1523,13 @@ def run(ck: Ck) -> None:
     ok_rr = ok_f and ck.translate('RotRounded_gen', trr.translate_rounded)
     ok_ip = ck.translate('RotInplace_gen', trp.translate_inplace)
     ok_im = ok_f and ok_d and ck.translate('RotMethods_gen', trp.translate_methods)
+    ok_cp = ck.translate('RotCopies_gen', trp.translate_copies)
     A = tr.analyse() if (ok_f and ok_d) else None
     built = False
     # 1. models and generated objects (definitions only: these compile whatever the source computes)
     models = ck.build(['Rot/RotGJ.vo', 'Rot/RotGJTotal.vo', 'Rot/RotGJFloat.vo', 'Rot/RotDispatch.vo', 'Rot/RotReify.vo', 'Rot/RotRound.vo',
-                       'Rot/RotInplace.vo', 'Rot/RotMethods.vo']
+                       'Rot/RotInplace.vo', 'Rot/RotMethods.vo', 'Rot/RotCopies.vo']
+                      + (['Gen/RotCopies_gen.vo'] if ok_cp else [])
                       + (['Gen/RotInplace_gen.vo'] if ok_ip else [])
                       + (['Gen/RotMethods_gen.vo'] if ok_im else [])
                       + (['Gen/RotFormulas_gen.vo', 'Gen/RotDispatch_gen.vo'] if A is not None else [])
@@ -1565,6 +1572,14 @@ def run(ck: Ck) -> None:
         ck.extra['inplace_census'] = [f'{r["cls"]}.{r["name"]} ({r["origin"]}): ' + ', '.join(
             p['kind'] + (f'({p["stores"]})' if p['kind'] == 'PSelf' else '') + (f' [{p["why"]}]' if p['why'] else '') for p in r['paths'])
             for r in trp.analyse()['rows']]
+    if ok_cp and models:
+        # copy / __deepcopy__ / freeze / thaw / _new_copy of the matrix classes: `return self` only for a frozen receiver's copy,
+        # otherwise a new object of the right class with the receiver's nine slots field for field (the translator fails closed
+        # on anything else)
+        group(COPIES_IMPORTS, {
+            'matrix_copies_are_new_objects_of_the_right_class': 'forallb crow_ok copy_table',
+            'matrix_copies_ok': 'copies_ok copy_table',
+        })
     if ok_im and models:
         # the in-place rotation METHODS, executed symbolically: the receiver ends up holding the pure operator form
         group(METHOD_IMPORTS, {
@@ -1684,6 +1699,9 @@ def run(ck: Ck) -> None:
         ck.explain('translate:RotInplace_gen')
     if any(k.startswith('inplace-method-') for k in keys):
         ck.explain('translate:RotMethods_gen')
+    if any(k.startswith('conversion:') for k in keys):
+        ck.explain('translate:RotCopies_gen')
+        ck.explain('instance:matrix_copies_')
     if any(k.startswith('inverse-') for k in keys):
         ck.explain('instance:inverse_')
         ck.explain('correspondence:inverse')
